@@ -2,7 +2,7 @@
    Part A: finite-set lemmas.  Part B: the sequential invariant  count = |live|  (every history).
    Part C: the interleaving model: insert || insert keeps the count exact in every schedule (invariant
    over all reachable configurations); witnesses for the pairs that involve Delete / BatchDelete. *)
-From Coq Require Import List NArith Bool Lia Permutation.
+From Coq Require Import List NArith Bool Lia Permutation PeanoNat.
 From Kyro Require Model.Server.
 From Kyro Require Import Model.Quota.
 Import ListNotations.
@@ -453,7 +453,7 @@ Proof.
 Qed.
 
 (* what one step of one thread does to the accounting, whatever the other thread contributes (`rest`) *)
-Definition local_post (me : bool) (sh : shared) (cs : bool) (sh' : shared) (cs' : bool) : Prop :=
+Definition local_post (me : nat) (sh : shared) (cs : bool) (sh' : shared) (cs' : bool) : Prop :=
   (cs = false -> sh_live sh' = sh_live sh)
   /\ match cs, cs' with
      | false, false => sh_mutex sh' = sh_mutex sh
@@ -640,51 +640,6 @@ Proof.
     eapply bstep_local; eassumption.
 Qed.
 
-(* ---- the pair invariant.  `me` is the thread id of a; b has the other id *)
-Definition ginv (me : bool) (sh : shared) (a b : thr) : Prop :=
-  NoDup (sh_live sh)
-  /\ sh_count sh = len (sh_live sh) + gdebt (sh_live sh) a + gdebt (sh_live sh) b
-  /\ match sh_mutex sh with
-     | None => gin_cs a = false /\ gin_cs b = false
-     | Some w => if Bool.eqb w me then gin_cs a = true /\ gin_cs b = false
-                 else gin_cs a = false /\ gin_cs b = true
-     end
-  /\ gknow (sh_live sh) a /\ gknow (sh_live sh) b.
-
-Lemma ginv_sym : forall me sh a b, ginv me sh a b -> ginv (negb me) sh b a.
-Proof.
-  intros me sh a b [H1 [H2 [H3 [H4 H5]]]]. unfold ginv.
-  split; [exact H1|]. split; [lia|]. split; [|split; assumption].
-  destruct (sh_mutex sh) as [w|]; [|tauto].
-  destruct w, me; cbn in *; tauto.
-Qed.
-
-Lemma ginv_step : forall limit me sh a b sh' a',
-  ginv me sh a b -> tstep limit me sh a = Some (sh', a') -> ginv me sh' a' b.
-Proof.
-  intros limit me sh a b sh' a' [Hn [Hc [Hm [Ka Kb]]]] St.
-  destruct (tstep_local limit me sh a sh' a' (gdebt (sh_live sh) b) Hn Hc Ka St) as [Hn' [Hc' [Ka' [Hl Hx]]]].
-  unfold ginv. destruct (gin_cs a) eqn:Ia.
-  - (* a inside its critical section: b is outside *)
-    assert (Ib : gin_cs b = false).
-    { destruct (sh_mutex sh) as [w|]; [destruct (Bool.eqb w me)|]; destruct Hm; congruence. }
-    assert (Hw : exists w, sh_mutex sh = Some w /\ Bool.eqb w me = true).
-    { destruct (sh_mutex sh) as [w|]; [|destruct Hm; discriminate]. exists w. split; [reflexivity|].
-      destruct (Bool.eqb w me); [reflexivity|destruct Hm; discriminate]. }
-    rewrite (gdebt_outside (sh_live sh) b Ib) in Hc'. rewrite (gdebt_outside (sh_live sh') b Ib).
-    split; [exact Hn'|]. split; [exact Hc'|]. split; [|split; [exact Ka'|eapply gknow_outside; eassumption]].
-    destruct (gin_cs a') eqn:Ia'.
-    + rewrite Hx. destruct Hw as [w [E1 E2]]. rewrite E1, E2. split; [reflexivity|exact Ib].
-    + rewrite Hx. split; [reflexivity|exact Ib].
-  - (* a outside: live is unchanged *)
-    specialize (Hl eq_refl). rewrite Hl in *.
-    split; [exact Hn|]. split; [exact Hc'|]. split; [|split; [exact Ka'|exact Kb]].
-    destruct (gin_cs a') eqn:Ia'.
-    + destruct Hx as [E1 E2]. rewrite E1 in Hm. rewrite E2. rewrite Bool.eqb_reflx. split; [reflexivity|apply Hm].
-    + rewrite Hx. destruct (sh_mutex sh) as [w|]; [|exact Hm].
-      destruct (Bool.eqb w me); destruct Hm as [X Y]; [congruence|split; assumption].
-Qed.
-
 (* the counter never passes the limit *)
 Lemma tstep_le : forall limit me sh th sh' th',
   sh_count sh <= limit -> tstep limit me sh th = Some (sh', th') -> sh_count sh' <= limit.
@@ -738,25 +693,6 @@ Proof.
     + discriminate.
 Qed.
 
-Definition pair_inv (limit : N) (c : conf) : Prop :=
-  ginv false (c_sh c) (c_a c) (c_b c) /\ sh_count (c_sh c) <= limit.
-
-Lemma cstep_pair_inv : forall limit c who, pair_inv limit c -> pair_inv limit (cstep limit c who).
-Proof.
-  intros limit c who [I Hl]. unfold cstep. destruct who.
-  - destruct (tstep limit true (c_sh c) (c_b c)) as [[sh' b']|] eqn:St; [|split; assumption].
-    apply ginv_sym in I. cbn [negb] in I. split; cbn.
-    + pose proof (ginv_step _ _ _ _ _ _ _ I St) as I'. apply ginv_sym in I'. exact I'.
-    + eapply tstep_le; eassumption.
-  - destruct (tstep limit false (c_sh c) (c_a c)) as [[sh' a']|] eqn:St; [|split; assumption].
-    split; cbn; [eapply ginv_step; eassumption|eapply tstep_le; eassumption].
-Qed.
-Lemma crun_pair_inv : forall limit sched c, pair_inv limit c -> pair_inv limit (crun limit sched c).
-Proof.
-  intros limit sched. induction sched as [|w sched IH]; intros c H; [exact H|].
-  cbn [crun fold_left]. apply IH. apply cstep_pair_inv. exact H.
-Qed.
-
 (* a call that has just arrived: Insert, BulkInsert, BulkLoadHnsw, Delete, BatchDelete (current protocol) *)
 Definition fresh (th : thr) : Prop :=
   (exists id ok, th = TI (istart id ok)) \/ (exists id ok rest, th = TBI (istart id ok) rest)
@@ -765,18 +701,6 @@ Lemma fresh_facts : forall live th, fresh th -> gin_cs th = false /\ gknow live 
 Proof.
   intros live th [[id [ok E]]|[[id [ok [rest E]]]|[[items E]|[[id E]|[ids E]]]]]; subst; cbn; auto.
 Qed.
-
-Lemma pair_inv_start : forall limit count live a b,
-  NoDup live -> count = len live -> count <= limit -> fresh a -> fresh b ->
-  pair_inv limit (cstart count live a b).
-Proof.
-  intros limit count live a b Hn Hc Hl Fa Fb.
-  destruct (fresh_facts live a Fa) as [Ia Ka]. destruct (fresh_facts live b Fb) as [Ib Kb].
-  split; [|exact Hl]. unfold ginv, cstart. cbn [c_sh c_a c_b sh_live sh_count sh_mutex].
-  rewrite (gdebt_outside live a Ia), (gdebt_outside live b Ib).
-  split; [exact Hn|]. split; [lia|]. split; [split; assumption|split; assumption].
-Qed.
-
 Lemma tdone_outside : forall th, tdone th = true -> gin_cs th = false.
 Proof.
   intros th H. destruct th as [x|x r|x|x|x]; cbn in *.
@@ -787,8 +711,210 @@ Proof.
   - destruct (b_pc x); try discriminate; reflexivity.
 Qed.
 
-(* ANY two calls out of {Insert, BulkInsert, BulkLoadHnsw, Delete, BatchDelete} of one tenant, any ids:
-   bounded at every instant, exact at quiescence, for EVERY schedule *)
+(* ---- ANY number of concurrent calls: lists of threads *)
+Lemma nth_set_same : forall A (l : list A) i old x, nth_error l i = Some old -> nth_error (set_nth l i x) i = Some x.
+Proof.
+  intros A l. induction l as [|a l IH]; intros i old x H; destruct i; cbn in *; try discriminate; [reflexivity|].
+  eapply IH. exact H.
+Qed.
+Lemma nth_set_other : forall A (l : list A) i j x, j <> i -> nth_error (set_nth l i x) j = nth_error l j.
+Proof.
+  intros A l. induction l as [|a l IH]; intros i j x H; destruct i, j; cbn; try reflexivity; try congruence.
+  apply IH. congruence.
+Qed.
+(* transient reservations held by all calls *)
+Definition dsum (live : list N) (ths : list thr) : N := fold_right (fun th acc => gdebt live th + acc) 0 ths.
+Lemma dsum_decomp : forall live ths i th, nth_error ths i = Some th ->
+  exists R, dsum live ths = gdebt live th + R /\ forall x, dsum live (set_nth ths i x) = gdebt live x + R.
+Proof.
+  intros live ths. induction ths as [|a l IH]; intros i th H; destruct i; cbn in H; try discriminate.
+  - inversion H; subst. exists (dsum live l). split; [reflexivity|]. intros x. reflexivity.
+  - destruct (IH i th H) as [R [E1 E2]]. exists (gdebt live a + R). cbn [dsum fold_right set_nth] in *. split.
+    + fold (dsum live l). rewrite E1. lia.
+    + intros x. fold (dsum live (set_nth l i x)). rewrite E2. lia.
+Qed.
+Lemma dsum_all_outside : forall live ths, (forall x, In x ths -> gin_cs x = false) -> dsum live ths = 0.
+Proof.
+  intros live ths. induction ths as [|a l IH]; intros H; [reflexivity|]. cbn [dsum fold_right]. fold (dsum live l).
+  rewrite (gdebt_outside live a (H a (or_introl eq_refl))). rewrite IH; [reflexivity|]. intros x Hx. apply H. right. exact Hx.
+Qed.
+Lemma dsum_only : forall live ths i th, nth_error ths i = Some th ->
+  (forall j x, j <> i -> nth_error ths j = Some x -> gin_cs x = false) -> dsum live ths = gdebt live th.
+Proof.
+  intros live ths. induction ths as [|a l IH]; intros i th H O; destruct i; cbn in H; try discriminate.
+  - inversion H; subst. cbn [dsum fold_right]. fold (dsum live l).
+    rewrite (dsum_all_outside live l); [lia|].
+    intros x Hx. destruct (In_nth_error l x Hx) as [n Hn]. apply (O (S n) x); [discriminate|exact Hn].
+  - cbn [dsum fold_right]. fold (dsum live l).
+    assert (Oa : gin_cs a = false) by (apply (O 0%nat a); [discriminate|reflexivity]).
+    rewrite (gdebt_outside live a Oa).
+    rewrite (IH i th H); [lia|]. intros j x Hj Hx. apply (O (S j) x); [congruence|exact Hx].
+Qed.
+
+(* THE transient invariant: the counter is ahead of the live set by exactly the reservations /
+   not-yet-applied decrements of the calls currently inside their critical sections; a call is inside
+   its critical section iff it holds the mutex (so at most one is); each call's local knowledge holds *)
+Definition minv (sh : shared) (ths : list thr) : Prop :=
+  NoDup (sh_live sh)
+  /\ sh_count sh = len (sh_live sh) + dsum (sh_live sh) ths
+  /\ (forall j x, nth_error ths j = Some x ->
+        gknow (sh_live sh) x /\ (gin_cs x = true <-> sh_mutex sh = Some j))
+  /\ (forall w, sh_mutex sh = Some w -> exists x, nth_error ths w = Some x).
+
+Lemma minv_step : forall limit sh ths i th sh' th',
+  minv sh ths -> nth_error ths i = Some th -> tstep limit i sh th = Some (sh', th') ->
+  minv sh' (set_nth ths i th').
+Proof.
+  intros limit sh ths i th sh' th' [Hn [Hc [Hall Hh]]] Hi St.
+  destruct (dsum_decomp (sh_live sh) ths i th Hi) as [R [E1 E2]].
+  destruct (Hall i th Hi) as [Ka Ma].
+  assert (Hc0 : sh_count sh = len (sh_live sh) + gdebt (sh_live sh) th + R) by lia.
+  destruct (tstep_local limit i sh th sh' th' R Hn Hc0 Ka St) as [Hn' [Hc' [Ka' [Hl Hx]]]].
+  pose proof (nth_set_same _ ths i th th' Hi) as Hi'.
+  assert (Hh' : forall w, sh_mutex sh' = Some w -> exists x, nth_error (set_nth ths i th') w = Some x).
+  { intros w Hw. destruct (Nat.eq_dec w i) as [E|E]; [subst w; exists th'; exact Hi'|].
+    rewrite nth_set_other by exact E. apply Hh.
+    destruct (gin_cs th), (gin_cs th'); try (rewrite Hx in Hw; first [exact Hw|discriminate]).
+    destruct Hx as [_ Y]. rewrite Y in Hw. congruence. }
+  destruct (gin_cs th) eqn:Ia.
+  - (* inside the critical section: this call holds the mutex, every other call is outside *)
+    assert (Em : sh_mutex sh = Some i) by (apply Ma; reflexivity).
+    assert (Out : forall j x, j <> i -> nth_error ths j = Some x -> gin_cs x = false).
+    { intros j x Hj Hjx. destruct (gin_cs x) eqn:Ix; [|reflexivity].
+      destruct (Hall j x Hjx) as [_ Mx]. apply Mx in Ix. congruence. }
+    assert (Out' : forall j x, j <> i -> nth_error (set_nth ths i th') j = Some x -> gin_cs x = false).
+    { intros j x Hj Hjx. rewrite nth_set_other in Hjx by exact Hj. eapply Out; eassumption. }
+    pose proof (dsum_only (sh_live sh) ths i th Hi Out) as D0.
+    pose proof (dsum_only (sh_live sh') _ i th' Hi' Out') as D1.
+    split; [exact Hn'|]. split; [lia|]. split; [|exact Hh'].
+    intros j x Hjx. destruct (Nat.eq_dec j i) as [E|E].
+    + subst j. rewrite Hi' in Hjx. inversion Hjx; subst x. split; [exact Ka'|].
+      destruct (gin_cs th') eqn:Ia'; rewrite Hx.
+      * rewrite Em. tauto.
+      * split; discriminate.
+    + rewrite nth_set_other in Hjx by exact E. pose proof (Out j x E Hjx) as Ox.
+      destruct (Hall j x Hjx) as [Kx _]. split; [eapply gknow_outside; eassumption|].
+      rewrite Ox. split; [discriminate|]. intros Y. exfalso.
+      destruct (gin_cs th'); rewrite Hx in Y; [rewrite Em in Y; congruence|discriminate].
+  - (* outside: the live set is untouched *)
+    specialize (Hl eq_refl).
+    assert (Nm : sh_mutex sh <> Some i) by (intro Y; apply Ma in Y; discriminate).
+    split; [exact Hn'|]. split; [rewrite Hl in *; rewrite E2; lia|]. split; [|exact Hh'].
+    intros j x Hjx. destruct (Nat.eq_dec j i) as [E|E].
+    + subst j. rewrite Hi' in Hjx. inversion Hjx; subst x. split; [exact Ka'|].
+      destruct (gin_cs th') eqn:Ia'.
+      * destruct Hx as [_ Y]. rewrite Y. tauto.
+      * rewrite Hx. split; [discriminate|]. intros Y. contradiction.
+    + rewrite nth_set_other in Hjx by exact E. destruct (Hall j x Hjx) as [Kx Mx].
+      rewrite Hl. split; [exact Kx|].
+      destruct (gin_cs th') eqn:Ia'.
+      * destruct Hx as [Y0 Y1]. rewrite Y1. rewrite Y0 in Mx. split.
+        -- intros Z. apply Mx in Z. discriminate.
+        -- intros Z. congruence.
+      * rewrite Hx. exact Mx.
+Qed.
+
+Definition many_inv (limit : N) (c : mconf) : Prop := minv (m_sh c) (m_ths c) /\ sh_count (m_sh c) <= limit.
+Lemma mstep_inv : forall limit c i, many_inv limit c -> many_inv limit (mstep limit c i).
+Proof.
+  intros limit c i [I Hl]. unfold mstep.
+  destruct (nth_error (m_ths c) i) as [th|] eqn:Hi; [|split; assumption].
+  destruct (tstep limit i (m_sh c) th) as [[sh' th']|] eqn:St; [|split; assumption].
+  split; cbn; [eapply minv_step; eassumption|eapply tstep_le; eassumption].
+Qed.
+Lemma mrun_inv : forall limit sched c, many_inv limit c -> many_inv limit (mrun limit sched c).
+Proof.
+  intros limit sched. induction sched as [|w sched IH]; intros c H; [exact H|].
+  cbn [mrun fold_left]. apply IH. apply mstep_inv. exact H.
+Qed.
+(* a call that is not inside a critical section and needs no knowledge: just arrived, or returned *)
+Definition calm (x : thr) : Prop := gin_cs x = false /\ forall live, gknow live x.
+Lemma fresh_calm : forall x, fresh x -> calm x.
+Proof. intros x F. split; [apply (fresh_facts [] x F)|intros live; apply (fresh_facts live x F)]. Qed.
+Lemma minv_start : forall count live ths,
+  NoDup live -> count = len live -> (forall x, In x ths -> calm x) ->
+  minv (mkSh None count live) ths.
+Proof.
+  intros count live ths Hn Hc Hf. unfold minv. cbn [sh_live sh_count sh_mutex].
+  split; [exact Hn|]. split; [|split; [|intros w Hw; discriminate]].
+  - rewrite dsum_all_outside; [lia|]. intros x Hx. apply (Hf x Hx).
+  - intros j x Hjx. apply nth_error_In in Hjx. destruct (Hf x Hjx) as [A B].
+    split; [apply B|]. rewrite A. split; discriminate.
+Qed.
+Lemma many_inv_start : forall limit count live ths,
+  NoDup live -> count = len live -> count <= limit -> Forall fresh ths ->
+  many_inv limit (mstart count live ths).
+Proof.
+  intros limit count live ths Hn Hc Hl Hf. rewrite Forall_forall in Hf.
+  split; [|exact Hl]. apply minv_start; try assumption. intros x Hx. apply fresh_calm. apply Hf. exact Hx.
+Qed.
+
+(* what the invariant says when the mutex is free / when every call is outside *)
+Lemma minv_free : forall sh ths, minv sh ths ->
+  (sh_mutex sh = None -> sh_count sh = len (sh_live sh))
+  /\ ((forall x, In x ths -> gin_cs x = false) -> sh_count sh = len (sh_live sh) /\ sh_mutex sh = None).
+Proof.
+  intros sh ths [Hn [Hc [Hall Hh]]].
+  assert (Free : (forall x, In x ths -> gin_cs x = false) -> sh_count sh = len (sh_live sh)).
+  { intros H. rewrite (dsum_all_outside _ _ H) in Hc. lia. }
+  split.
+  - intros Em. apply Free. intros x Hx. destruct (In_nth_error _ _ Hx) as [j Hj].
+    destruct (Hall j x Hj) as [_ M]. destruct (gin_cs x); [|reflexivity]. rewrite Em in M. destruct M as [M _].
+    specialize (M eq_refl). discriminate.
+  - intros O. split; [apply Free; exact O|].
+    destruct (sh_mutex sh) as [w|] eqn:Em; [|reflexivity]. exfalso.
+    destruct (Hh w eq_refl) as [x Hx]. destruct (Hall w x Hx) as [_ M].
+    rewrite (O x (nth_error_In _ _ Hx)) in M. destruct M as [_ M]. specialize (M eq_refl). discriminate.
+Qed.
+
+(* ANY number of concurrent calls out of {Insert, BulkInsert, BulkLoadHnsw, Delete, BatchDelete} of one
+   tenant, any ids, EVERY schedule *)
+Theorem many_calls : forall limit count live ths sched,
+  NoDup live -> count = len live -> count <= limit -> Forall fresh ths ->
+  let c := mrun limit sched (mstart count live ths) in
+  (* at every instant *)
+  (sh_count (m_sh c) = len (sh_live (m_sh c)) + dsum (sh_live (m_sh c)) (m_ths c)
+   /\ len (sh_live (m_sh c)) <= sh_count (m_sh c) /\ sh_count (m_sh c) <= limit /\ NoDup (sh_live (m_sh c))
+   /\ (forall j x, nth_error (m_ths c) j = Some x -> (gin_cs x = true <-> sh_mutex (m_sh c) = Some j))
+   /\ (sh_mutex (m_sh c) = None -> sh_count (m_sh c) = len (sh_live (m_sh c))))
+  (* and when every call has returned *)
+  /\ (mquiescent c = true -> sh_count (m_sh c) = len (sh_live (m_sh c)) /\ sh_mutex (m_sh c) = None).
+Proof.
+  intros limit count live ths sched Hn Hc Hl Hf c.
+  pose proof (mrun_inv limit sched _ (many_inv_start limit count live ths Hn Hc Hl Hf)) as P.
+  fold c in P. destruct P as [[Ind [Ic [Iall Ih]]] Il].
+  assert (Free : (forall x, In x (m_ths c) -> gin_cs x = false) -> sh_count (m_sh c) = len (sh_live (m_sh c))).
+  { intros H. rewrite (dsum_all_outside _ _ H) in Ic. lia. }
+  split.
+  - split; [exact Ic|]. split; [lia|]. split; [exact Il|]. split; [exact Ind|]. split.
+    + intros j x Hjx. apply (Iall j x Hjx).
+    + intros Em. apply Free. intros x Hx. destruct (In_nth_error _ _ Hx) as [j Hj].
+      destruct (Iall j x Hj) as [_ M]. destruct (gin_cs x); [|reflexivity]. rewrite Em in M. destruct M as [M _].
+      specialize (M eq_refl). discriminate.
+  - intros Q. unfold mquiescent in Q. rewrite forallb_forall in Q.
+    assert (O : forall x, In x (m_ths c) -> gin_cs x = false) by (intros x Hx; apply tdone_outside; apply Q; exact Hx).
+    split; [apply Free; exact O|].
+    destruct (sh_mutex (m_sh c)) as [w|] eqn:Em; [|reflexivity]. exfalso.
+    destruct (nth_error (m_ths c) w) as [x|] eqn:Hw.
+    + destruct (Iall w x Hw) as [_ M]. rewrite (O x (nth_error_In _ _ Hw)) in M. destruct M as [_ M].
+      specialize (M eq_refl). discriminate.
+    + (* the holder is always one of the calls *)
+      destruct (Ih w eq_refl) as [x Hx]. congruence.
+Qed.
+(* ---- two calls = the list [a; b] *)
+Definition to_m (c : conf) : mconf := mkM (c_sh c) [c_a c; c_b c].
+Lemma cstep_sim : forall limit c who, to_m (cstep limit c who) = mstep limit (to_m c) (if who then 1 else 0)%nat.
+Proof.
+  intros limit c who. unfold cstep, mstep, to_m. destruct who; cbn [nth_error m_ths m_sh].
+  - destruct (tstep limit 1%nat (c_sh c) (c_b c)) as [[sh b']|]; reflexivity.
+  - destruct (tstep limit 0%nat (c_sh c) (c_a c)) as [[sh a']|]; reflexivity.
+Qed.
+Lemma crun_sim : forall limit sched c,
+  to_m (crun limit sched c) = mrun limit (map (fun w : bool => if w then 1 else 0)%nat sched) (to_m c).
+Proof.
+  intros limit sched. induction sched as [|w sched IH]; intros c; [reflexivity|].
+  cbn [crun mrun fold_left map]. fold (crun limit sched (cstep limit c w)). rewrite IH. rewrite cstep_sim. reflexivity.
+Qed.
 Theorem pairs_all : forall limit count live a b sched,
   NoDup live -> count = len live -> count <= limit -> fresh a -> fresh b ->
   let c := crun limit sched (cstart count live a b) in
@@ -796,16 +922,89 @@ Theorem pairs_all : forall limit count live a b sched,
   /\ (quiescent c = true -> final_count c = final_live c /\ sh_mutex (c_sh c) = None).
 Proof.
   intros limit count live a b sched Hn Hc Hl Fa Fb c.
-  pose proof (crun_pair_inv limit sched _ (pair_inv_start limit count live a b Hn Hc Hl Fa Fb)) as P.
-  fold c in P. destruct P as [[In [Ic [Im [Kx Ky]]]] Il].
-  unfold final_count, final_live. split.
-  - repeat split; try assumption. lia.
-  - intros Q. unfold quiescent in Q. apply andb_true_iff in Q. destruct Q as [Qa Qb].
-    pose proof (tdone_outside _ Qa) as Oa. pose proof (tdone_outside _ Qb) as Ob.
-    rewrite (gdebt_outside _ _ Oa), (gdebt_outside _ _ Ob) in Ic.
-    split; [lia|].
-    destruct (sh_mutex (c_sh c)) as [w|]; [|reflexivity].
-    rewrite Oa, Ob in Im. destruct (Bool.eqb w false); destruct Im; discriminate.
+  pose proof (many_calls limit count live [a; b] (map (fun w : bool => if w then 1 else 0)%nat sched) Hn Hc Hl
+                (Forall_cons _ Fa (Forall_cons _ Fb (Forall_nil _)))) as M.
+  cbv zeta in M. change (mstart count live [a; b]) with (to_m (cstart count live a b)) in M.
+  rewrite <- crun_sim in M. fold c in M. unfold to_m in M. cbn [m_sh m_ths] in M.
+  destruct M as [[_ [A [B [C _]]]] Q]. unfold final_live, final_count. split; [repeat split; assumption|].
+  intros Qc. apply Q. unfold mquiescent. cbn [forallb m_ths]. unfold quiescent in Qc. rewrite andb_true_r. exact Qc.
+Qed.
+
+(* ---- several tenants.  A call of tenant u is invisible to tenant t <> u: in t's view it is an idle,
+   returned call *)
+Definition idle : thr := TD (mkD DDone 0 false true).
+Definition view (t : N) (p : N * thr) : thr := if fst p =? t then snd p else idle.
+Lemma idle_calm : calm idle. Proof. split; [reflexivity|intros live; reflexivity]. Qed.
+Lemma map_set_nth : forall A B (f : A -> B) l i y, map f (set_nth l i y) = set_nth (map f l) i (f y).
+Proof. intros A B f l. induction l as [|a l IH]; intros i y; destruct i; cbn; try reflexivity. rewrite IH. reflexivity. Qed.
+Lemma set_nth_same : forall A (l : list A) i x, nth_error l i = Some x -> set_nth l i x = l.
+Proof. intros A l. induction l as [|a l IH]; intros i x H; destruct i; cbn in *; try discriminate; [inversion H; reflexivity|]. rewrite IH by exact H. reflexivity. Qed.
+
+Definition winv (limit : N -> N) (c : wconf) : Prop :=
+  forall t, minv (w_sh c t) (map (view t) (w_ths c)) /\ sh_count (w_sh c t) <= limit t.
+
+(* separation: a step of a call of tenant u does not touch any other tenant's counter, documents or mutex *)
+Lemma wstep_other_tenant : forall limit c i u th t,
+  nth_error (w_ths c) i = Some (u, th) -> t <> u -> w_sh (wstep limit c i) t = w_sh c t.
+Proof.
+  intros limit c i u th t Hi Ht. unfold wstep. rewrite Hi.
+  destruct (tstep (limit u) i (w_sh c u) th) as [[sh th']|]; [|reflexivity].
+  cbn. unfold wset. apply N.eqb_neq in Ht. rewrite Ht. reflexivity.
+Qed.
+
+Lemma wstep_inv : forall limit c i, winv limit c -> winv limit (wstep limit c i).
+Proof.
+  intros limit c i W. unfold wstep.
+  destruct (nth_error (w_ths c) i) as [[u th]|] eqn:Hi; [|exact W].
+  destruct (tstep (limit u) i (w_sh c u) th) as [[sh' th']|] eqn:St; [|exact W].
+  intros t. cbn [w_sh w_ths]. rewrite map_set_nth. unfold wset.
+  destruct (N.eq_dec t u) as [E|E].
+  - subst t. rewrite N.eqb_refl. destruct (W u) as [I Hl].
+    assert (Hv : nth_error (map (view u) (w_ths c)) i = Some th).
+    { rewrite (map_nth_error (view u) i (w_ths c) Hi). unfold view. cbn. rewrite N.eqb_refl. reflexivity. }
+    assert (Ev : view u (u, th') = th') by (unfold view; cbn; rewrite N.eqb_refl; reflexivity).
+    rewrite Ev. split; [eapply minv_step; eassumption|eapply tstep_le; eassumption].
+  - assert (Ne : (t =? u) = false) by (apply N.eqb_neq; exact E). rewrite Ne.
+    assert (Ev : view t (u, th') = idle).
+    { unfold view. cbn. rewrite N.eqb_sym, Ne. reflexivity. }
+    assert (Hv : nth_error (map (view t) (w_ths c)) i = Some idle).
+    { rewrite (map_nth_error (view t) i (w_ths c) Hi). unfold view. cbn. rewrite N.eqb_sym, Ne. reflexivity. }
+    rewrite Ev. rewrite (set_nth_same _ _ _ _ Hv). apply W.
+Qed.
+Lemma wrun_inv : forall limit sched c, winv limit c -> winv limit (wrun limit sched c).
+Proof.
+  intros limit sched. induction sched as [|w sched IH]; intros c H; [exact H|].
+  cbn [wrun fold_left]. apply IH. apply wstep_inv. exact H.
+Qed.
+
+(* ANY number of concurrent calls of ANY number of tenants, every schedule: every tenant's counter is
+   ahead of its live set by exactly its own calls' reservations; exact whenever its mutex is free, and
+   when all calls have returned *)
+Theorem many_tenants : forall (limit : N -> N) (w0 : N -> shared) (ths : list (N * thr)) (sched : list nat),
+  (forall t, NoDup (sh_live (w0 t)) /\ sh_count (w0 t) = len (sh_live (w0 t)) /\ sh_count (w0 t) <= limit t
+             /\ sh_mutex (w0 t) = None) ->
+  Forall (fun p => fresh (snd p)) ths ->
+  let c := wrun limit sched (mkW w0 ths) in
+  forall t,
+    (sh_count (w_sh c t) = len (sh_live (w_sh c t)) + dsum (sh_live (w_sh c t)) (map (view t) (w_ths c))
+     /\ len (sh_live (w_sh c t)) <= sh_count (w_sh c t) /\ sh_count (w_sh c t) <= limit t
+     /\ NoDup (sh_live (w_sh c t))
+     /\ (sh_mutex (w_sh c t) = None -> sh_count (w_sh c t) = len (sh_live (w_sh c t))))
+    /\ (wquiescent c = true -> sh_count (w_sh c t) = len (sh_live (w_sh c t)) /\ sh_mutex (w_sh c t) = None).
+Proof.
+  intros limit w0 ths sched H0 Hf c t.
+  assert (W0 : winv limit (mkW w0 ths)).
+  { intros u. cbn [w_sh w_ths]. destruct (H0 u) as [A [B [C D]]]. split; [|exact C].
+    destruct (w0 u) as [m cnt lv]. cbn in *. subst m. apply minv_start; try assumption.
+    intros x Hx. apply in_map_iff in Hx. destruct Hx as [[v th] [E Hin]]. subst x. unfold view. cbn.
+    destruct (v =? u); [|apply idle_calm]. apply fresh_calm. rewrite Forall_forall in Hf. apply (Hf (v, th) Hin). }
+  pose proof (wrun_inv limit sched _ W0 t) as [I Il]. fold c in I, Il.
+  destruct (minv_free _ _ I) as [F1 F2]. destruct I as [Hn [Hc _]].
+  split.
+  - split; [exact Hc|]. split; [lia|]. split; [exact Il|]. split; [exact Hn|exact F1].
+  - intros Q. apply F2. intros x Hx. apply in_map_iff in Hx. destruct Hx as [[v th] [E Hin]]. subst x.
+    unfold view. cbn. destruct (v =? t); [|reflexivity]. apply tdone_outside.
+    unfold wquiescent in Q. rewrite forallb_forall in Q. apply (Q (v, th) Hin).
 Qed.
 
 (* every such pair does terminate under a fair schedule: a first, then b *)
